@@ -34,8 +34,13 @@ func observe(it ast.ItemNode) J {
 	b := it.ToBytes()
 	bj := bytesJ(b)
 	scribbleBytes(b)
-	return J{"abs": projItem(it), "string": chars(fmt.Sprint(it)), "bytes": bj, "bytes2": bytesJ(it.ToBytes()),
-		"vars": vj, "vars2": namesJ(it.Variables()), "size": it.Size()}
+	ev := J{"abs": projItem(it), "string": chars(fmt.Sprint(it)), "bytes": bj, "bytes2": bytesJ(it.ToBytes()),
+		"vars": vj, "vars2": namesJ(it.Variables()), "size": it.Size(), "hasfisl": false}
+	if a, ok := it.(*ast.ASCIINode); ok {
+		lo, hi := a.FillInStringLength()
+		ev["hasfisl"], ev["fisl"] = true, J{"lo": boundJ(lo), "hi": boundJ(hi)}
+	}
+	return ev
 }
 
 func observeMsg(m *ast.DataMessage) J {
